@@ -138,6 +138,15 @@ func runC16(e *Env) {
 					}
 				case *ssa.Go:
 					r.Unknown("E6.panic", load.FuncName(fn)+"/go", p.Pos(x.Pos()), "goroutine started in the extraction path")
+				case *ssa.IndexAddr, *ssa.Index, *ssa.Slice:
+					// checks the compiler proved to fail are not in its listing of undecided checks: find them by the upper bound
+					if v, need, ok := nopanic.Need(in); ok && need > 0 {
+						nScan++
+						if ub, have := nopanic.MaxLen(v, b); have && ub < need {
+							r.Bad("E6.panic", load.FuncName(fn)+"/bounds-always-fail/"+describeSite(in), p.Pos(in.Pos()),
+								fmt.Sprintf("the expression needs len >= %d but the dominating conditions say len <= %d: it panics whenever it is reached", need, ub))
+						}
+					}
 				}
 			}
 		}
@@ -294,6 +303,154 @@ func checkNilDeref(e *Env, p *load.Program, fns []*ssa.Function) {
 		}
 	}
 	r.Floor("E6.nilderef(dereferences of nilable results)", n, 3)
+	checkNilReceivers(e, p, fns)
+}
+
+// checkNilReceivers (E6.nilrecv): a nil constant never flows, unguarded, into the receiver of a method call on a pointer
+// type of another package (a nil *regexp.Regexp, *os.File ... panics inside the method).  The flow is followed through
+// phis, parameters of package functions (all call sites) and the elements of variadic arguments; values of unknown
+// provenance (fields, results of library constructors) are trusted to be non-nil.
+func checkNilReceivers(e *Env, p *load.Program, fns []*ssa.Function) {
+	r := e.R
+	inPkg := map[*ssa.Function]bool{}
+	for _, f := range fns {
+		inPkg[f] = true
+	}
+	guardedAt := func(v ssa.Value, b *ssa.BasicBlock) bool {
+		for _, cd := range flow.DomConds(b) {
+			c := flow.Norm(cd)
+			bo, ok := c.V.(*ssa.BinOp)
+			if !ok || (bo.X != v && bo.Y != v) {
+				continue
+			}
+			other := bo.Y
+			if bo.Y == v {
+				other = bo.X
+			}
+			if flow.IsNilConst(other) && ((bo.Op == token.NEQ && c.Pol) || (bo.Op == token.EQL && !c.Pol)) {
+				return true
+			}
+		}
+		return false
+	}
+	var mayBeNil func(v ssa.Value, at *ssa.BasicBlock, depth int, seen map[ssa.Value]bool) (bool, string)
+	mayBeNil = func(v ssa.Value, at *ssa.BasicBlock, depth int, seen map[ssa.Value]bool) (bool, string) {
+		if depth > 6 || seen[v] {
+			return false, ""
+		}
+		seen[v] = true
+		if at != nil && guardedAt(v, at) {
+			return false, ""
+		}
+		switch x := v.(type) {
+		case *ssa.Const:
+			if x.IsNil() {
+				return true, "the nil constant"
+			}
+		case *ssa.Phi:
+			for i, ed := range x.Edges {
+				if may, why := mayBeNil(ed, x.Block().Preds[i], depth+1, seen); may {
+					return true, why
+				}
+			}
+		case *ssa.ChangeType:
+			return mayBeNil(x.X, at, depth+1, seen)
+		case *ssa.Parameter:
+			fn := x.Parent()
+			if !inPkg[fn] {
+				return false, ""
+			}
+			idx := -1
+			for k, q := range fn.Params {
+				if q == x {
+					idx = k
+				}
+			}
+			for _, g := range fns {
+				for _, c := range flow.Calls(g) {
+					match := flow.Callee(c) == fn
+					if !match && flow.Callee(c) == nil && !c.Common().IsInvoke() && types.Identical(c.Common().Signature(), fn.Signature) {
+						match = true // through a function value of the same signature
+					}
+					if !match || idx >= len(c.Common().Args) {
+						continue
+					}
+					if may, why := mayBeNil(c.Common().Args[idx], c.Block(), depth+1, seen); may {
+						return true, why + " passed by " + load.FuncName(g)
+					}
+				}
+			}
+		case *ssa.UnOp:
+			// an element of a slice: for a variadic parameter, the elements the callers put in
+			if x.Op != token.MUL {
+				return false, ""
+			}
+			ia, ok := x.X.(*ssa.IndexAddr)
+			if !ok {
+				return false, ""
+			}
+			prm, ok := ia.X.(*ssa.Parameter)
+			if !ok || !inPkg[prm.Parent()] {
+				return false, ""
+			}
+			fn := prm.Parent()
+			idx := -1
+			for k, q := range fn.Params {
+				if q == prm {
+					idx = k
+				}
+			}
+			for _, g := range fns {
+				for _, c := range flow.Calls(g) {
+					if flow.Callee(c) != fn || idx >= len(c.Common().Args) {
+						continue
+					}
+					sl, ok := c.Common().Args[idx].(*ssa.Slice)
+					if !ok {
+						continue
+					}
+					al, ok := sl.X.(*ssa.Alloc)
+					if !ok {
+						continue
+					}
+					for _, ref := range *al.Referrers() {
+						if ea, ok := ref.(*ssa.IndexAddr); ok {
+							for _, r2 := range *ea.Referrers() {
+								if st, ok := r2.(*ssa.Store); ok && st.Addr == ssa.Value(ea) {
+									if may, why := mayBeNil(st.Val, c.Block(), depth+1, seen); may {
+										return true, why + " passed by " + load.FuncName(g)
+									}
+								}
+							}
+						}
+					}
+				}
+			}
+		}
+		return false, ""
+	}
+	n := 0
+	for _, fn := range fns {
+		for _, c := range flow.Calls(fn) {
+			cal := flow.Callee(c)
+			if cal == nil || cal.Signature.Recv() == nil || inPkg[cal] || len(c.Common().Args) == 0 {
+				continue
+			}
+			if _, isPtr := cal.Signature.Recv().Type().Underlying().(*types.Pointer); !isPtr {
+				continue
+			}
+			n++
+			recv := c.Common().Args[0]
+			if may, why := mayBeNil(recv, c.Block(), 0, map[ssa.Value]bool{}); may {
+				r.Bad("E6.nilrecv", load.FuncName(fn)+"/"+calleeNameCI(c), p.Pos(c.Pos()),
+					"the receiver of "+calleeNameCI(c)+" can be "+why+" without a dominating `!= nil` guard: the method dereferences it and panics")
+			}
+		}
+	}
+	r.Count("method calls on foreign pointer receivers examined (E6.nilrecv)", n)
+	if !r.HasBad("E6.nilrecv") {
+		r.OK("E6.nilrecv", "no-nil-constant-reaches-a-receiver", "", fmt.Sprintf("%d method calls on pointer receivers of other packages: no nil constant reaches a receiver unguarded", n))
+	}
 }
 
 // checkTermination: loop forms and absence of recursion.
